@@ -4,6 +4,7 @@ import (
 	"context"
 	"errors"
 	"fmt"
+	"io/fs"
 )
 
 // CustomErr is the "custom error type" panic value.
@@ -41,6 +42,10 @@ func PanicNow(kind string) {
 		panic(PlainStruct{A: 7, B: "x"})
 	case "custom":
 		panic(CustomErr{Code: 42})
+	case "typednil":
+		// an error whose own Error method panics when it is called (nil pointer receiver)
+		var pe *fs.PathError
+		panic(pe)
 	case "ctxcanceled":
 		// an error value that the worker code itself treats specially when it is *returned*
 		panic(context.Canceled)
